@@ -198,14 +198,17 @@ class ApiStepper(object):
         return self.sink.items[n:]
 
 
-def tap(log, tag=None):
-    """Pass-through mux operator recording every event (ProbeStateTopology excluded)."""
+def tap(log, tag=None, states=None):
+    """Pass-through mux operator recording every event (ProbeStateTopology excluded).
+    With `states` (a set) it also hashes a canonical snapshot of the store at every event."""
     def _tap(source):
         def on_subscribe(observer, scheduler):
             def on_next(i):
                 if type(i) is not rs.state.ProbeStateTopology:
                     ev = compact(i)
                     log.append(ev if tag is None else (tag,) + ev)
+                    if states is not None and i.store is not None:
+                        states.add(hash(store_snapshot(i.store)) & 0x7fffffffffffffff)
                 observer.on_next(i)
 
             def on_completed():
